@@ -84,22 +84,44 @@ theorem C18_any_two_schedules_agree (tasks : List (Task κ ρ)) (share : Nat →
 
 theorem private_sharePrivate (n : Nat) : Private n sharePrivate := fun _ _ _ _ h => h
 
+/-- a list of distinct objects is private whatever the chunk size -/
+theorem private_shareList (chunk n : Nat) : Private n (shareList chunk n id) := by
+  intro i j hi hj h
+  simp only [shareList, id] at h
+  have h1 := congrArg (· % (n + 1)) h
+  simp only [Nat.mul_add_mod_self_right] at h1
+  rwa [Nat.mod_eq_of_lt (by omega), Nat.mod_eq_of_lt (by omega)] at h1
+
 /-- `multi_run(parallel=True)` equals `multi_run(parallel=False)` whenever copies are private: always in
     the `spec` variant, and for a list of sims in the code as it is. -/
 theorem C18_parallel_eq_serial (v : Variant) (tg : Target κ ρ) (a : Args κ) (chunk : Nat)
     (sched : List (Nat × Nat)) (tasks : List (Task κ ρ)) (out : List (Sim κ ρ))
-    (hv : v = .spec ∨ ∃ l, tg = .list l)
+    (hv : v = .spec ∨ (a.ident = id ∧ ∃ l, tg = .list l))
     (ht : tasksOf tg a = .ok tasks)
     (hperm : (sched.map (·.2)).Perm (List.range tasks.length))
     (hser : multiRun simulate v tg a false chunk [] = .ok out) :
     multiRun simulate v tg a true chunk sched = .ok out := by
-  have hshare : shareOf v tg chunk = sharePrivate := by
-    rcases hv with h | ⟨l, h⟩
-    · subst h; cases tg <;> rfl
-    · subst h; cases v <;> rfl
+  have hlenT : ∀ l, tg = .list l → tasks.length = l.length := by
+    intro l hl
+    subst hl
+    cases hn : nRunsOf a with
+    | error e => simp [tasksOf, hn, bind, Except.bind] at ht
+    | ok n =>
+        simp only [tasksOf, hn, bind, Except.bind, pure, Except.pure] at ht
+        have := Except.ok.inj ht
+        subst this
+        simp
+  have hpriv : Private tasks.length (shareOf v tg chunk a.ident) := by
+    rcases hv with h | ⟨hid, l, h⟩
+    · subst h; cases tg <;> exact private_sharePrivate _
+    · subst h
+      cases v with
+      | spec => exact private_sharePrivate _
+      | asis =>
+          simp only [shareOf, hid, hlenT l rfl]
+          exact private_shareList chunk l.length
   simp only [multiRun, ht, bind, Except.bind, Bool.false_eq_true, ↓reduceIte] at hser ⊢
-  rw [hshare]
-  exact C18_schedule_independent simulate tasks sharePrivate sched out (private_sharePrivate _) hperm hser
+  exact C18_schedule_independent simulate tasks _ sched out hpriv hperm hser
 
 /-! ### Seeds -/
 
@@ -160,7 +182,7 @@ theorem C18_seeds_iterpars (c : κ) (base : Int) (seeds : List Int) (nRuns : Nat
 /-- **Seeds, list of sims.** A list of fresh sims is run as given: member `i` is its own configuration run
     alone with its own seed; nothing is reseeded. -/
 theorem C18_seeds_list (members : List (κ × Int)) (a : Args κ) (hr : a.reseed = none) (hd : a.doRun = true)
-    (hi : a.iterSeeds = none ∨ a.iterCfgs = none) :
+    (hi : a.iterSeeds = none ∨ a.iterCfgs = none) (hss : a.simSeed = none) (hsc : a.simCfg = none) :
     multiRun simulate .spec (.list (members.map fun m => Sim.fresh m.1 m.2)) a false 1 [] =
       .ok (members.map fun m => ranWith simulate m.1 m.2) := by
   have hn : ∃ n, nRunsOf a = .ok n := by
@@ -179,7 +201,7 @@ theorem C18_seeds_list (members : List (κ × Int)) (a : Args κ) (hr : a.reseed
     obtain ⟨⟨i, s⟩, hmem, rfl⟩ := List.mem_map.mp ht
     have hs := (List.of_mem_zip hmem).2
     obtain ⟨m, _, rfl⟩ := List.mem_map.mp hs
-    simp [runAlone, singleRun, newSeed, Sim.fresh, ranWith, C18_reseed_defaults.2.1]
+    simp [runAlone, singleRun, newSeed, Sim.fresh, ranWith, C18_reseed_defaults.2.1, hss, hsc]
 
 /-- **Known finding (pre-initialised base sim).** The model as the code is: if the base sim was initialised
     before being replicated, `rand_seed += ind` no longer reaches the already seeded distributions — every
@@ -210,6 +232,26 @@ theorem C18_chunk_shared_seeds_counterexample :
     (multiRun (fun (c : Nat) (s : Int) => (c, s)) .asis (.single (Sim.fresh 7 3)) { nRuns := 8, doRun := false } true 2
       ((List.range 8).map fun i => (0, i))).toOption.map (·.map (·.seed)) = some [4, 4, 8, 8, 12, 12, 16, 16] := by
   decide
+
+/-- The two-step path inherits the defect: `MultiSim(sim, n_runs=6, initialize=True, n_cpus=1).run()` — the prepared
+    list holds each chunk's object twice, and running it fails (the pinned code), while the repaired variant gives
+    the six members. -/
+theorem C18_init_then_run_chunk_counterexample :
+    errOf (msimInitRun (fun (c : Nat) (s : Int) => (c, s)) .asis (.single (Sim.fresh 7 3)) { nRuns := 6 } .parallel true 2
+      ((List.range 6).map fun i => (0, i)) ((List.range 6).map fun i => (0, i))) = some .alreadyRun ∧
+    (msimInitRun (fun (c : Nat) (s : Int) => (c, s)) .spec (.single (Sim.fresh 7 3)) { nRuns := 6 } .parallel true 2
+      ((List.range 6).map fun i => (0, i)) ((List.range 6).map fun i => (0, i))).toOption.map (·.sims.map (·.seed)) =
+      some [3, 4, 5, 6, 7, 8] := by
+  constructor <;> decide
+
+/-- The same object twice in a list: private copies when the two entries fall in different chunks (both run),
+    one shared copy — and `AlreadyRunError` — when they fall in the same chunk. -/
+theorem C18_aliased_list_counterexample :
+    (multiRun (fun (c : Nat) (s : Int) => (c, s)) .asis (.list [Sim.fresh 7 3, Sim.fresh 7 4, Sim.fresh 7 3])
+      { ident := fun i => if i = 2 then 0 else i } true 1 [(0, 0), (0, 1), (0, 2)]).toOption.map (·.map (·.seed)) = some [3, 4, 3] ∧
+    errOf (multiRun (fun (c : Nat) (s : Int) => (c, s)) .asis (.list [Sim.fresh 7 3, Sim.fresh 7 4, Sim.fresh 7 3])
+      { ident := fun i => if i = 2 then 0 else i } true 3 [(0, 0), (0, 1), (0, 2)]) = some .alreadyRun := by
+  constructor <;> decide
 
 /-! ### MultiSim.run: in-place hand-over, debug mode -/
 
@@ -246,6 +288,56 @@ theorem C18_list_length (l : List (Sim κ ρ)) (a : Args κ) (out : List (Sim κ
         execSerial] at hrun
       have := (mapM_eq_ok _ _ _ hrun).1
       simpa using this
+
+/-! ### init_sims / initialize=True, ss.parallel -/
+
+/-- `single_run(do_run=False)` does not initialise the sim. (Obligation on Generated/RunFacts.lean: an `else` branch of
+    `if do_run:` flips it.) Initialising in the preparing process would detach `Sim.init`'s seeding of the
+    process-global generator from the process that later runs the member. -/
+theorem C18_do_run_false_skips_init : Gen.doRunFalseSkipsInit = true := by decide
+
+/-- `init_sims` of a fresh sim: `n` fresh (not initialised, not run) copies with seeds `base + i`. -/
+theorem C18_init_sims (c : κ) (base : Int) (n : Nat) :
+    initSims simulate .spec (.single (Sim.fresh c base)) { nRuns := n } false 1 [] =
+      .ok ((List.range n).map fun (i : Nat) => (Sim.fresh c (base + (i : Int)) : Sim κ ρ)) := by
+  simp only [initSims, multiRun, tasksOf, nRunsOf, bind, Except.bind, pure, Except.pure, Bool.false_eq_true, ↓reduceIte,
+    execSerial]
+  rw [mapM_ok (runAlone simulate) (fun t => (Sim.fresh c (base + t.ind) : Sim κ ρ))]
+  · simp [List.map_map, Function.comp_def]
+  · intro t ht
+    obtain ⟨i, _, rfl⟩ := List.mem_map.mp ht
+    simp [runAlone, singleRun, newSeed, Sim.fresh, C18_reseed_expr, C18_reseed_defaults.1, C18_do_run_false_skips_init]
+
+/-- **Prepare, then run** (`MultiSim(sim, n_runs=n, initialize=True).run()`): exactly the members of the one-step
+    run — member `i` is the configuration run alone with `base + i` — and the caller's base sim is untouched. -/
+theorem C18_init_then_run (c : κ) (base : Int) (n : Nat) (inplace : Bool) :
+    msimInitRun simulate .spec (.single (Sim.fresh c base)) { nRuns := n } .serial inplace 1 [] [] =
+      .ok ⟨[Sim.fresh c base], (List.range n).map fun (i : Nat) => ranWith simulate c (base + (i : Int))⟩ := by
+  have h1 := C18_init_sims simulate c base n
+  have h2 := C18_seeds_list simulate ((List.range n).map fun (i : Nat) => (c, base + (i : Int)))
+    { nRuns := n, ident := shareOf .spec (.single (Sim.fresh c base : Sim κ ρ)) 1 id } rfl rfl (Or.inl rfl) rfl rfl
+  simp only [List.map_map, Function.comp_def] at h2
+  simp only [msimInitRun, show ((Mode.serial != Mode.serial) = false) from rfl, h1, bind, Except.bind, msimRun,
+    show ((Mode.serial == Mode.parallel) = false) from rfl, h2, pure, Except.pure, callersOf]
+
+/-- `ss.parallel` always hands `MultiSim` a list. (Obligation on Generated/RunFacts.lean.) -/
+theorem C18_parallel_wraps_list : Gen.parallelWrapsList = true := by decide
+
+/-- `ss.parallel(*sims)` is `MultiSim(sims).run()` on the list — for every number of sims, one included. -/
+theorem C18_parallel_is_multisim (v : Variant) (sims : List (Sim κ ρ)) (a : Args κ) (mode : Mode) (inplace : Bool)
+    (chunk : Nat) (sched : List (Nat × Nat)) :
+    parallelCall simulate v sims a mode inplace chunk sched = msimRun simulate v (.list sims) a mode inplace chunk sched := by
+  simp [parallelCall, C18_parallel_wraps_list]
+
+/-- In particular a single sim given to `ss.parallel` is updated in place like any other list member. -/
+theorem C18_parallel_single_inplace (c : κ) (s : Int) :
+    parallelCall simulate .spec [Sim.fresh c s] {} .serial true 1 [] =
+      .ok ⟨[ranWith simulate c s], [ranWith simulate c s]⟩ := by
+  rw [C18_parallel_is_multisim]
+  have h := C18_seeds_list simulate [(c, s)] {} rfl rfl (Or.inl rfl) rfl rfl
+  simp only [List.map_cons, List.map_nil] at h
+  simp only [msimRun, show ((Mode.serial == Mode.parallel) = false) from rfl, h, bind, Except.bind, pure, Except.pure]
+  simp
 
 /-- **Known finding (debug mode).** As the code is, `MultiSim(..., debug=True).run()` raises for every input. -/
 theorem C18_debug_asis_raises (tg : Target κ ρ) (a : Args κ) (inplace : Bool) (chunk : Nat) (sched : List (Nat × Nat)) :
@@ -309,22 +401,44 @@ theorem C18_reduce_is_statistic (sqrtF : Rat → Rat) (k qlo qhi : Rat) (row : L
     reduceRow sqrtF false k qlo qhi row = ⟨median row, quantile qlo row, quantile qhi row⟩ := by
   constructor <;> rfl
 
-/-- When every series has the sim's number of time points, `reduce` as the code is returns the statistics
-    (`reduceKey` = `reduce`); the `spec` variant always does. -/
+/-- When every member series has the sim's number of time points, `reduce` returns the statistics
+    (`reduceKey` = `reduce`), in the code as it is and in the repaired variant. -/
 theorem C18_reduceKey_partial (v : Variant) (npts : Nat) (sqrtF : Rat → Rat) (useMean : Bool) (k qlo qhi : Rat)
-    (members : List (List Rat)) (h : v = .spec ∨ ∀ m ∈ members, m.length = npts) :
+    (members : List (List Rat)) (h : ∀ m ∈ members, m.length = npts) :
     reduceKey v npts sqrtF useMean k qlo qhi members = .ok (reduce sqrtF useMean k qlo qhi members) := by
   cases v with
-  | spec => simp [reduceKey]
   | asis =>
+      have : members.all (·.length == npts) = true := by
+        simp only [List.all_eq_true, beq_iff_eq]; exact h
+      simp [reduceKey, this]
+  | spec =>
       cases members with
-      | nil => simp [reduceKey]
+      | nil => simp [reduceKey, reduce]
       | cons m ms =>
-          have : m.length = npts := by
-            rcases h with h | h
-            · cases h
-            · exact h m (List.mem_cons_self ..)
+          have hm : m.length = npts := h m (List.mem_cons_self ..)
+          have : ms.all (·.length == m.length) = true := by
+            simp only [List.all_eq_true, beq_iff_eq]
+            intro x hx; rw [hm]; exact h x (List.mem_cons_of_mem _ hx)
           simp [reduceKey, this]
+
+/-- Members on different time lines (different numbers of time points) are rejected by `reduce`, as the code is
+    and in the repaired variant: there is no common time axis to reduce over. -/
+theorem C18_reduce_different_npts_rejected (v : Variant) (npts : Nat) (sqrtF : Rat → Rat) (useMean : Bool)
+    (k qlo qhi : Rat) (m₁ m₂ : List Rat) (rest : List (List Rat)) (h : m₁.length ≠ m₂.length) :
+    errOf (reduceKey v npts sqrtF useMean k qlo qhi (m₁ :: m₂ :: rest)) = some .valueErr := by
+  cases v with
+  | asis =>
+      have : (m₁ :: m₂ :: rest).all (·.length == npts) = false := by
+        by_cases h1 : m₁.length = npts
+        · have h2 : m₂.length ≠ npts := fun h2 => h (h1.trans h2.symm)
+          simp [h1, h2]
+        · simp [h1]
+      simp [reduceKey, this, errOf]
+  | spec =>
+      have : (m₂ :: rest).all (·.length == m₁.length) = false := by
+        have : m₂.length ≠ m₁.length := fun e => h e.symm
+        simp [this]
+      simp [reduceKey, this, errOf]
 
 /-- **Known finding (mixed time steps).** A result series of another length than the sim's time vector (a
     module with its own time step) makes `reduce` raise as the code is. -/
@@ -343,9 +457,50 @@ theorem C18_median_spec (l : List Rat) (m : Nat) :
     (sorted l).Pairwise (· ≤ ·) ∧ (sorted l).Perm l :=
   ⟨median_odd l m, median_even l m, quantile_zero l, quantile_one l, sorted_pairwise l, sorted_perm_self l⟩
 
+/-- **Quantiles are ordered.** NumPy's linear-interpolation quantile is monotone in its level on `[0, 1]`, for
+    every member list; hence every quantile lies between the smallest and the largest member, and the reduced band
+    of the median branch is ordered `low ≤ median ≤ high` whenever `0 ≤ qlo ≤ 1/2 ≤ qhi ≤ 1`. -/
+theorem C18_quantile_monotone (l : List Rat) {q₁ q₂ : Rat} (h0 : 0 ≤ q₁) (h12 : q₁ ≤ q₂) (h1 : q₂ ≤ 1) :
+    quantile q₁ l ≤ quantile q₂ l ∧
+    (sorted l).getD 0 0 ≤ quantile q₁ l ∧ quantile q₂ l ≤ (sorted l).getD ((sorted l).length - 1) 0 := by
+  refine ⟨quantile_mono l h0 h12 h1, ?_, ?_⟩
+  · rw [← quantile_zero]; exact quantile_mono l Rat.le_refl h0 (Rat.le_trans h12 h1)
+  · rw [← quantile_one]; exact quantile_mono l (Rat.le_trans h0 h12) h1 Rat.le_refl
+
+theorem C18_median_band_ordered (sqrtF : Rat → Rat) (k qlo qhi : Rat) (row : List Rat)
+    (h0 : 0 ≤ qlo) (hl : qlo ≤ 1/2) (hh : 1/2 ≤ qhi) (h1 : qhi ≤ 1) :
+    (reduceRow sqrtF false k qlo qhi row).low ≤ (reduceRow sqrtF false k qlo qhi row).centre ∧
+    (reduceRow sqrtF false k qlo qhi row).centre ≤ (reduceRow sqrtF false k qlo qhi row).high := by
+  rw [(C18_reduce_is_statistic sqrtF k qlo qhi row).2]
+  exact ⟨quantile_mono row h0 hl (by grind), quantile_mono row (by grind) hh h1⟩
+
+example : (0 : Rat) ≤ Gen.defaultQLow ∧ Gen.defaultQLow ≤ 1/2 ∧ (1/2 : Rat) ≤ Gen.defaultQHigh ∧ Gen.defaultQHigh ≤ 1 := by
+  with_unfolding_all decide +kernel
+
 /-- default `bounds` and `quantiles` of `reduce` -/
 theorem C18_reduce_defaults : Gen.defaultBounds = 2 ∧ Gen.defaultQLow = 1/10 ∧ Gen.defaultQHigh = 9/10 := by
   refine ⟨rfl, rfl, rfl⟩
+
+/-- **Arguments of `reduce` are used as given**; the defaults apply only when the argument is not given — in
+    particular `bounds=0` and the quantile levels `0` and `1` are honoured. (Obligation on the regenerated
+    argument-handling expressions: `bounds or 2`-style defaulting makes `boundsArg (some 0) = 0` false.) -/
+theorem C18_reduce_args :
+    Gen.boundsArg none = Gen.defaultBounds ∧ (∀ b, Gen.boundsArg (some b) = b) ∧
+    Gen.quantilesArg none = (Gen.defaultQLow, Gen.defaultQHigh) ∧ (∀ p, Gen.quantilesArg (some p) = p) :=
+  ⟨rfl, fun _ => rfl, rfl, fun _ => rfl⟩
+
+/-- `mean(bounds=0)`: low = high = mean; `median(quantiles=(0, 1))`: the min–max envelope of the members. -/
+theorem C18_reduce_boundary_args (sqrtF : Rat → Rat) (row : List Rat) :
+    reduceRow sqrtF true (Gen.boundsArg (some 0)) 0 0 row = ⟨mean row, mean row, mean row⟩ ∧
+    reduceRow sqrtF false 0 (Gen.quantilesArg (some (0, 1))).1 (Gen.quantilesArg (some (0, 1))).2 row =
+      ⟨median row, (sorted row).getD 0 0, (sorted row).getD ((sorted row).length - 1) 0⟩ := by
+  have h := C18_reduce_args.2.1 0
+  have hq := C18_reduce_args.2.2.2 (0, 1)
+  constructor
+  · rw [h, (C18_reduce_is_statistic sqrtF 0 0 0 row).1]
+    simp only [Rat.zero_mul]
+    congr 1 <;> grind
+  · rw [hq, (C18_reduce_is_statistic sqrtF 0 0 1 row).2, quantile_zero, quantile_one]
 
 /-- The mean is the sum divided by the count: `n · mean = Σ`. -/
 theorem C18_mean_spec (l : List Rat) (h : l ≠ []) : mean l * l.length = sum l := by
